@@ -24,10 +24,11 @@ TIERS = {
 }
 FLOORS = {"quick": {"texts_whose_characters_look_like_colour_sequences": 500,
                     "distinct_nontrivial": 1500, "operations_checked": 40000, "slices": 4000, "formats": 4000,
-                    "index_errors_agree": 300, "equality_probes": 30000},
+                    "index_errors_agree": 300, "equality_probes": 30000, "extensions_refused_half_way": 60},
           "thorough": {"texts_whose_characters_look_like_colour_sequences": 2000,
                        "distinct_nontrivial": 50000, "operations_checked": 2000000, "slices": 200000,
-                       "formats": 200000, "index_errors_agree": 15000, "equality_probes": 1500000}}
+                       "formats": 200000, "index_errors_agree": 15000, "equality_probes": 1500000,
+                       "extensions_refused_half_way": 3000}}
 LEVEL_TEXT = ("Runtime exploration with a shadow model: every public operation on CHText / chunks is mirrored on a "
               "list of (character, colour) cells with plain str/list semantics; the rendering is read back through "
               "an independent SGR terminal model after each step of each generated history.")
@@ -98,6 +99,19 @@ class Stop(Exception):
     pass
 
 
+class NoText(Exception):
+    pass
+
+
+class Unprintable:
+    """an object that cannot be turned into text"""
+
+    def __str__(self):
+        raise NoText("no text")
+
+    __repr__ = __format__ = lambda self, *a: self.__str__()
+
+
 def run_history(ctx, rng, script=None):
     """returns the list of executed operations (for replay) ; script = recorded operations"""
     pool = []
@@ -148,7 +162,7 @@ def run_history(ctx, rng, script=None):
                 elif op in ('fixed', 'resize'):
                     rec.append(rng.randint(0, la + 3) if rng.random() < 0.7 else la)
                 elif op == 'fmt':
-                    fill = rng.choice(['', '', '*', '0', ' ', '<', 'x', '-'])
+                    fill = rng.choice(['', '', '*', '0', ' ', '<', 'x', '-', '.', '.', ','])
                     al = rng.choice(['<', '>', '^']) if fill else rng.choice(['', '<', '>', '^'])
                     w = rng.choice(['', str(rng.randint(1, la + 4)), '0'])
                     if w and w != '0' and fill and al and rng.random() < 0.25:
@@ -195,7 +209,21 @@ def run_history(ctx, rng, script=None):
                         continue
                     r = CHText(a) if isinstance(a, CHText) else a
                     c_obj, mc = pool[(rec[1] + rec[2]) % len(pool)]
-                    if isinstance(a, CHText) and rec[2] % 3 == 0:
+                    if isinstance(a, CHText) and rec[2] % 7 == 5:
+                        # one of the parts cannot be shown (its __str__ raises): the extension is refused half way.
+                        # Whatever was taken over before that - the text is still a text (the first part has the
+                        # look of the last character, so it goes into the same run of characters)
+                        try:
+                            r += [a[-1:], b, Unprintable(), c_obj]
+                        except NoText:
+                            pass
+                        ctx.count("extensions_refused_half_way")
+                        shown = sgr.cells(str(r))
+                        if shown not in (ma, ma + ma[-1:], ma + ma[-1:] + mb):
+                            fail("text-shows-something-else-after-a-refused-extension",
+                                 {"op": rec, "shows": r.plain_text()[:60], "before": "".join(c for c, _ in ma)[:60]})
+                        mr = shown
+                    elif isinstance(a, CHText) and rec[2] % 3 == 0:
                         # a list of parts one of which is itself a list of (different) parts
                         r += [b, [c_obj, b, "-"], c_obj] if rec[2] % 2 else ((c_obj, b), "-", [b])
                         mr = ma + (mb + mc + mb + [("-", sgr.DEFAULT)] + mc if rec[2] % 2 else
